@@ -1,5 +1,6 @@
 import FlexModel.Proto
 import FlexModel.Geo.Area
+import FlexModel.Geo.AreaHist
 namespace FlexModel.Geo.Area
 open FlexModel.Proto
 
@@ -56,8 +57,71 @@ def pkt2 (gbc : Bool) (key f r o p sSrc sSnd : String) : String :=
     | _, _, _, _ => "bad-op"
   | _, _, _ => "bad-op"
 
+/-- "-" (attribute absent) or an integer -/
+def optInt? (s : String) : Option (Option Int) := if s = "-" then some none else (int? s).map some
+
+/-- TPV report token "lat,lon,speed,track": lat / lon = integer (1/10 µdeg) or "-", speed / track = 1 (present) / 0 -/
+def tpv? (s : String) : Option Tpv :=
+  match s.splitOn "," with
+  | [la, lo, sp, tr] =>
+    match optInt? la, optInt? lo, bool? sp, bool? tr with
+    | some la, some lo, some sp, some tr => some ⟨la, lo, sp, tr⟩
+    | _, _, _, _ => none
+  | _ => none
+
+/-- received vectors of one station, given by their timestamps; the position field carries the index in the history -/
+def stpvs (ts : List Nat) : List StPV := (List.range ts.length).zipWith (fun (i : Nat) (t : Nat) => (⟨t, ⟨Int.ofNat i, 0⟩, true⟩ : StPV)) ts
+
+/-- "tst pai north east" groups of a `hist` line -/
+def groups4 : List String → Option (List (String × String × String × String))
+  | [] => some []
+  | t :: p :: n :: e :: rest => (groups4 rest).map (fun l => (t, p, n, e) :: l)
+  | _ => none
+
+/-- one received vector of a `hist` line: timestamp, PAI, local offsets from the area centre -/
+def histPv? (i : Nat) (g : String × String × String × String) : Option (StPV × Rat × Rat) :=
+  match nat? g.1, bool? g.2.1, rat? g.2.2.1, rat? g.2.2.2 with
+  | some t, some p, some n, some e => some (⟨t, ⟨Int.ofNat i, 0⟩, p⟩, n, e)
+  | _, _, _, _ => none
+
+/-- reception of a GBC / GAC packet after earlier receptions from its source (round 5): the location table keeps the
+newest vector (`locAfter`), Annex D is evaluated on it.
+"hist gbc|gac <rhl> <shape> <a> <b> <c> <s> <ego north> <ego east> (<tst> <pai> <north> <east>)+" (last group = the
+packet's own header vector) -> "<c²+s²=1?> <index of the table's vector> [actions]" -/
+def histLine (gbc : Bool) (rhl sh a b c sn en ee : String) (rest : List String) : String :=
+  match nat? rhl, shape? sh, rat? a, rat? b, rat? c, rat? sn, rat? en, rat? ee, groups4 rest with
+  | some rhl, some sh, some a, some b, some c, some sn, some en, some ee, some gs =>
+    match (List.range gs.length).zipWith histPv? gs |>.mapM id with
+    | some pvs =>
+      match locAfter (pvs.map (·.1)) with
+      | some st =>
+        match pvs[st.pos.lat.toNat]? with
+        | some (_, n, e) =>
+          if degenerate sh a b then "ZeroDivisionError" else
+          let i : RxIn := ⟨FvalCode sh a b c sn en ee, rhl, false, false, some (st.pai, FvalCode sh a b c sn n e)⟩
+          s!"{b01 (decide (c * c + sn * sn = 1))} {st.pos.lat} [" ++
+            " ".intercalate ((if gbc then recvGBC i else recvGAC i).map actStr) ++ "]"
+        | none => "bad-op"
+      | none => "bad-op"
+    | none => "bad-op"
+  | _, _, _, _, _, _, _, _, _ => "bad-op"
+
 def areaStep (_ : Unit) (t : List String) : Unit × String :=
   match t with
+  | "hist" :: "gbc" :: rhl :: sh :: a :: b :: c :: sn :: en :: ee :: rest => ((), histLine true rhl sh a b c sn en ee rest)
+  | "hist" :: "gac" :: rhl :: sh :: a :: b :: c :: sn :: en :: ee :: rest => ((), histLine false rhl sh a b c sn en ee rest)
+  | "ego" :: nm :: la :: lo :: rs =>
+    -- ego position after a history of TPV reports: "ego <speed/track required 0|1> <lat0> <lon0> <report>*" -> "<lat> <lon>"
+    match bool? nm, int? la, int? lo, rs.mapM tpv? with
+    | some nm, some la, some lo, some rs =>
+      let p := egoAfter nm ⟨la, lo⟩ rs
+      ((), s!"{p.lat} {p.lon}")
+    | _, _, _, _ => ((), "bad-op")
+  | "newest" :: ts =>
+    -- index (in reception order) of the vector the location table holds after receptions with these timestamps
+    match ts.mapM nat? with
+    | some ts => ((), match locAfter (stpvs ts) with | some c => s!"{c.pos.lat}" | none => "none")
+    | none => ((), "bad-op")
   | ["F", s, a, b, x, y] =>
     match shape? s, rat? a, rat? b, rat? x, rat? y with
     | some s, some a, some b, some x, some y =>
